@@ -41,6 +41,40 @@ def run_native(program, repo, timeout=120):
         shutil.rmtree(tmp, ignore_errors=True)
 
 
+_oracle_cache = {}
+
+
+def run_oracle(prop, repo, seed=0, budget='quick', timeout=600):
+    """native bounded search for a failing input of the property on the real code of `repo`"""
+    key = (prop, repo, seed, budget)
+    if key in _oracle_cache:
+        return _oracle_cache[key]
+    tmp = tempfile.mkdtemp(prefix='sqv_oracle_')
+    try:
+        shutil.copytree(os.path.join(repo, 'smartquery'), os.path.join(tmp, 'smartquery'))
+        env = dict(os.environ)
+        env['PYTHONPATH'] = tmp
+        env['PYTHONDONTWRITEBYTECODE'] = '1'
+        script = os.path.join(ROOT, 'sqv', 'native', 'oracles.py')
+        try:
+            p = subprocess.run([NATIVE_PY, script, prop, str(seed), budget], cwd=tmp, env=env, capture_output=True,
+                               text=True, timeout=timeout)
+            res = None
+            for line in reversed(p.stdout.strip().splitlines()):
+                try:
+                    res = json.loads(line)
+                    break
+                except ValueError:
+                    continue
+            out = {'exit': p.returncode, 'result': res, 'stderr': p.stderr[-2000:]}
+        except subprocess.TimeoutExpired:
+            out = {'exit': None, 'result': None, 'stderr': 'timeout'}
+    finally:
+        shutil.rmtree(tmp, ignore_errors=True)
+    _oracle_cache[key] = out
+    return out
+
+
 def attempt(prop, name, inst, repo):
     try:
         from contracts import replays
@@ -57,6 +91,16 @@ def attempt(prop, name, inst, repo):
         if r['result'] and r['result'].get('violated'):
             reproduced = True
             break
+    oracle = None
+    if not reproduced:
+        o = run_oracle(prop, repo, int(os.environ.get('VERIF_SEED', '0') or 0))
+        r = o.get('result')
+        if r and r.get('failures'):
+            reproduced = True
+            oracle = {'failing_inputs': r['failures'][:5], 'cases': r['cases'],
+                      'how': 'bounded native search of the property neighbourhood on the real code (sqv/native/oracles.py %s)' % prop}
+        elif r is not None:
+            oracle = {'failing_inputs': [], 'cases': r['cases'], 'oracle_error': r.get('oracle_error')}
     h = hashlib.sha256((prop + name).encode()).hexdigest()[:12]
     rel = 'replays/%s-%s.json' % (prop, h)
     doc = {'property': prop, 'obligation': name, 'function': inst.get('func'), 'path': inst.get('path'),
@@ -64,10 +108,11 @@ def attempt(prop, name, inst, repo):
            'solver_output': 'sat (z3): the negated clause is satisfiable under the path condition' if not inst.get('static')
                             else 'structural obligation evaluated to false on the extracted source',
            'smt2': (inst.get('info') or {}).get('smt2'),
-           'reproduced_natively': reproduced, 'runs': runs,
+           'reproduced_natively': reproduced, 'runs': runs, 'native_search': oracle,
            'how_to_rerun': './check %s --replay %s' % (prop, rel)}
-    os.makedirs(os.path.join(ROOT, 'replays'), exist_ok=True)
-    with open(os.path.join(ROOT, rel), 'w') as f:
+    outdir = os.environ.get('SQV_OUT', ROOT)
+    os.makedirs(os.path.join(outdir, 'replays'), exist_ok=True)
+    with open(os.path.join(outdir, rel), 'w') as f:
         json.dump(doc, f, indent=1)
     return {'path': rel, 'reproduced': reproduced}
 
@@ -82,7 +127,13 @@ def rerun(path):
         print(r['title'], '->', res['result'], res['stderr'][-300:] if not res['result'] else '')
         if res['result'] and res['result'].get('violated'):
             any_v = True
-    if not doc.get('runs'):
+    if doc.get('native_search') and doc['native_search'].get('failing_inputs'):
+        o = run_oracle(doc['property'], repo, int(os.environ.get('VERIF_SEED', '0') or 0))
+        r = o.get('result') or {}
+        for f in (r.get('failures') or [])[:3]:
+            print('failing input:', json.dumps(f)[:500])
+        any_v = any_v or bool(r.get('failures'))
+    if not doc.get('runs') and not doc.get('native_search'):
         print('no native scenario recorded; obligation:', doc['obligation'])
         print('verifier model:', doc.get('verifier_model'))
     if any_v:
